@@ -667,7 +667,7 @@ def run_cdb(ctx, tree):
     binp = build_cdb(tree)
     d = os.path.join(vlib.scratch_root(), "c11-cdbfiles")
     os.makedirs(d, exist_ok=True)
-    cnt = ctx.n(1000, 20000)
+    cnt = ctx.n(900, 20000)
     cmds = [[binp, "--rand", str(vlib.subseed(ctx.seed, "c11cdb", i)), str(cnt), os.path.join(d, "f%d" % i)] for i in range(vlib.NCPU)]
     res = inproc.run_shards(cmds)
     viols = inproc.merge_c_stats(ctx, res, "cdb")
@@ -702,7 +702,7 @@ def run(ctx):
     if not only or "lspawn" in only:
         reg = regress_scenarios()
         nw = vlib.NCPU
-        per = ctx.n(450, 2400)
+        per = ctx.n(380, 2400)
         jobs = [(tree, i, vlib.subseed(ctx.seed, "c11", i), per, ctx.tier, reg[i::nw]) for i in range(nw)]
         ctx.stats.merge(vlib.run_workers(worker, jobs))
     ctx.notes["conf_break"] = tree.conf("conf-break")[:1]
